@@ -117,8 +117,21 @@ def if_chain(stmt):
         arms.append((node.test, node.body))
         if len(node.orelse) == 1 and isinstance(node.orelse[0], ast.If):
             node = node.orelse[0]
+        elif not node.orelse and getattr(node, '_cont', None):
+            # early-exit form: the rest of the block is the else part (see normalize.annotate_continuations)
+            cont = node._cont
+            if isinstance(cont[0], ast.If) and (len(cont) == 1 or getattr(cont[0], '_cont', None) is not None or cont[0].orelse):
+                if len(cont) == 1 or getattr(cont[0], '_cont', None) is not None:
+                    node = cont[0]
+                    continue
+            return arms, list(cont)
         else:
             return arms, (node.orelse or None)
+
+
+def is_chain_head(stmt):
+    """False for an `if` that is a later arm of an early-exit chain (its predecessor in the block continues into it)"""
+    return not getattr(stmt, '_chained', False)
 
 
 def ends_in_raise(body):
